@@ -59,10 +59,12 @@ func init() {
 			return map[string]any{"keyword_instances": b, "nesting_depth": d, "values": len(values[vs])}
 		},
 		MinOutcomes: 2,
+		DevBound:    func(string) int { return 1 },
 		Body: func(r *core.Run, x *explore.X) {
 			budget, depth, vs := c01Budget(r.Tier)
 			b := budget
 			raw := GenSchema(x, &b, depth)
+			order := x.Deviate(2) // map iteration policy: ascending (default) / descending
 			if !r.Own(x) {
 				return
 			}
@@ -84,8 +86,9 @@ func init() {
 			}
 			for i, v := range values[vs] {
 				want := ref.Valid(raw, v, ref.Plain)
-				r.Case(fmt.Sprintf("%s|%d", sj, i), len(raw) > 0 && want != ref.Abstain)
+				r.Case(fmt.Sprintf("%s|%d|%d", sj, i, order), len(raw) > 0 && want != ref.Abstain)
 				var visit, matching bool
+				r.Exec(order)
 				if !r.Guard(x, "VisitJSON", map[string]any{"schema": sj, "value": CanonJSON(v)}, func() { visit, matching = implVerdict(s, v) }) {
 					r.Outcome("panic")
 					continue
